@@ -12,9 +12,10 @@ from .bootstrap import VERIF_ROOT, HarnessError, bootstrap
 from .findings import Findings
 from .outcome import Outcome, canonical, case_hash, trim
 
-EVIDENCE_DIR = os.path.join(VERIF_ROOT, "evidence")
+OUT_ROOT = os.environ.get("VERIF_OUT", VERIF_ROOT)  # sensitivity runs redirect their outputs
+EVIDENCE_DIR = os.path.join(OUT_ROOT, "evidence")
 CORPUS_DIR = os.path.join(VERIF_ROOT, "corpus")
-REPLAY_DIR = os.path.join(VERIF_ROOT, "replays")
+REPLAY_DIR = os.path.join(OUT_ROOT, "replays")
 
 PROPS = {
     "C01": "props.c01_optimal_grouping",
